@@ -222,6 +222,38 @@ def ingress_degree_uid(roadm_uid, prev_uid, typ):
     return f'Edfa_preamp_{roadm_uid}_from_{prev_uid}' if typ[prev_uid] in ('Fiber', 'RamanFiber') else prev_uid
 
 
+def gen_p2p(rng, *, max_spans=4, user_amps=True, fused=True, both=None, max_km=140, long_fibers=False,
+            lumped=False, per_freq_loss=False):
+    """Point-to-point line without any ROADM (as the shipped edfa_example_network.json): Transceiver - fibres, with
+    or without user-placed amplifiers / fused junctions - Transceiver, one or both directions."""
+    both = rng.random() < 0.7 if both is None else both
+    els = [{'uid': 'trx A', 'type': 'Transceiver', 'metadata': _loc(0, 0)},
+           {'uid': 'trx B', 'type': 'Transceiver', 'metadata': _loc(1, 1)}]
+    cx = []
+    for src, dst in ([('A', 'B'), ('B', 'A')] if both else [('A', 'B')]):
+        k = rng.randint(1, max_spans)
+        chain = []
+        for j in range(k):
+            length = rnd(rng, 160, 420, 3) if long_fibers and rng.random() < 0.3 else None
+            chain.append(gen_fiber(rng, f'fiber ({src} → {dst})-{j}', length=length, max_km=max_km,
+                                   lumped=lumped and rng.random() < 0.3,
+                                   per_freq_loss=per_freq_loss and rng.random() < 0.3))
+            if j < k - 1 or rng.random() < 0.5:
+                r = rng.random()
+                if user_amps and r < 0.45:
+                    chain.append(gen_edfa(rng, f'amp ({src} → {dst})-{j}', settings=pick(rng, ['variety', 'none', 'full'])))
+                elif fused and r < 0.6 and j < k - 1:
+                    chain.append({'uid': f'fused ({src} → {dst})-{j}', 'type': 'Fused', 'params': {'loss': pick(rng, [0.5, 1, 2])},
+                                  'metadata': _loc(0, 0)})
+        for e in chain:
+            e.pop('_settings', None)
+        els += chain
+        u = [f'trx {src}'] + [e['uid'] for e in chain] + [f'trx {dst}']
+        cx += list(zip(u[:-1], u[1:]))
+    return {'network_name': 'vf point to point', 'elements': els,
+            'connections': [{'from_node': a, 'to_node': b} for a, b in cx]}
+
+
 def gen_topology(rng, *, n_sites=None, max_sites=5, max_spans=3, whole_km=False, user_amps=True, fused=True,
                  max_km=140, extra_links=None, roadm_params=None, per_degree=False, lumped=False,
                  per_freq_loss=False, long_fibers=False, amp_varieties=None, roadm_variety=None,
